@@ -85,6 +85,16 @@ def scenarios(ctx):
     S("writer-streamed", "write", {"op": "writer", "cache": "<C>", "key": "k", "opts": {"time": "1000"},
                                    "chunks": [ctx.data(d5k[:100]), ctx.data(d5k[100:3000]), ctx.data(d5k[3000:])], "flush_after": [1]},
       have, key="k", old=old_k, newent=newent(d5k), data=d5k)
+    # a caller that does not give up its writer when a write fails: it offers the same bytes once more and goes on, or it
+    # commits what the writer has accepted so far
+    S("writer-streamed-retrying-caller", "write", {"op": "writer", "cache": "<C>", "key": "k", "opts": {"time": "1000"},
+                                                   "chunks": [ctx.data(d5k[:100]), ctx.data(d5k[100:3000]), ctx.data(d5k[3000:])],
+                                                   "after_write_error": "retry"},
+      have, key="k", old=old_k, newent=newent(d5k), data=d5k)
+    S("writer-streamed-commit-after-error", "write-prefix", {"op": "writer", "cache": "<C>", "key": "k", "opts": {"time": "1000"},
+                                                            "chunks": [ctx.data(d5k[:100]), ctx.data(d5k[100:3000]), ctx.data(d5k[3000:])],
+                                                            "after_write_error": "commit"},
+      have, key="k", old=old_k, newent=newent(d5k), data=d5k)
     S("read", "read", {"op": "read", "cache": "<C>", "key": "k"}, have, key="k", old=old_k, data=stored)
     S("read_hash", "read", {"op": "read_hash", "cache": "<C>", "sri": sri_stored}, have, key="k", old=old_k, data=stored)
     S("reader-check", "read", {"op": "reader", "cache": "<C>", "key": "k", "bufs": [4]}, have, key="k", old=old_k, data=stored)
@@ -109,7 +119,8 @@ def scenarios(ctx):
 
 def run(ctx):
     ctx.rule = ("operation in {keyed write warm/cold, write_hash, declared-size (mmap) writer, declared-size writer "
-                "given fewer bytes, streamed writer, read, read_hash, Reader+check, copy, metadata, list, remove, "
+                "given fewer bytes, streamed writer (also with a caller that retries a failed write on the same writer, or commits "
+                "after it), read, read_hash, Reader+check, copy, metadata, list, remove, "
                 "remove_hash, remove_fully} x modes. A traced baseline lists the visible system calls; for EVERY such "
                 "call every errno of its class is injected (open: EACCES/EMFILE/EIO/ENOSPC, write: ENOSPC/EIO/short "
                 "write of half the bytes then ENOSPC, read/getdents: EIO, rename/link/mkdir: ENOSPC/EACCES/EIO, unlink: "
@@ -274,6 +285,31 @@ def judge(ctx, sc, cache, r, sig, det, extra, short, name):
             if not (matches(md, rd, old) or matches(md, rd, newent)):
                 ctx.violation(sig + "|Err-neither-old-nor-new", f"{sc.name} failed ({ev.variant(r)}) and the key is neither the old nor "
                               f"the new entry: {ev.brief(md)} / {ev.brief(rd)}", det)
+    elif kind == "write-prefix":
+        # the caller committed after a failed write: what was stored is whatever the writer had accepted - a prefix of
+        # the data - and it must be exactly what the returned address names
+        data = sc.meta["data"]
+        if ok:
+            sri = r["ok"].get("sri")
+            rh = ctx.call("sync@astd", {"op": "read_hash", "cache": cache, "sri": sri})
+            got = drv.data_bytes(rh["ok"]["data"]) if ev.is_ok(rh) else None
+            if got is None or ref.sri("sha256", got) != sri or not data.startswith(got):
+                ctx.violation(sig + "|Ok-but-not-retrievable", f"{sc.name}: commit after a failed write reported success but the "
+                              f"returned address does not read back as a prefix of the data: {ev.brief(rh)}", det)
+            else:
+                md, rd = lookup_state(ctx, cache, key)
+                ent = ({"key": key, "integrity": sri, "time": 1000, "size": len(got), "metadata": None, "raw_metadata": None}, got)
+                if not matches(md, rd, ent):
+                    ctx.violation(sig + "|Ok-but-key-not-new", f"{sc.name} reported success but the key does not read what was "
+                                  f"committed: {ev.brief(md)} / {ev.brief(rd)}", det)
+        else:
+            md, rd = lookup_state(ctx, cache, key)
+            if not matches(md, rd, old):
+                okp = ev.is_ok(md) and md["ok"]["entry"] and ev.is_ok(rd) and data.startswith(drv.data_bytes(rd["ok"]["data"]))
+                if not okp:
+                    ctx.violation(sig + "|Err-neither-old-nor-new", f"{sc.name} failed ({ev.variant(r)}) and the key is neither the old "
+                                  f"entry nor a readable prefix: {ev.brief(md)} / {ev.brief(rd)}", det)
+        retry_needed = False
     elif kind == "write-rejected":
         if ok:
             ctx.violation(sig + "|rejected-commit-Ok", "a commit with fewer bytes than declared reported success", det)
